@@ -423,6 +423,7 @@ func cmdRun(args []string) int {
 	pstr := fs.String("params", "", "k=v,k=v")
 	stubs := fs.String("stubs", "", "callee=stub;callee=stub")
 	noops := fs.String("noops", "", "callee;callee")
+	fix := fs.String("fix", "", "replay.json whose vals make the run concrete")
 	uf := fs.Bool("uf", false, "floats as UF")
 	dump := fs.String("dump", "", "dump scripts to dir")
 	timeout := fs.Int("timeout", 60, "per-query timeout")
@@ -437,6 +438,21 @@ func cmdRun(args []string) int {
 			p := strings.SplitN(kv, "=", 2)
 			v, _ := strconv.ParseInt(p[1], 10, 64)
 			ps[p[0]] = v
+		}
+	}
+	if *fix != "" {
+		b, err := os.ReadFile(*fix)
+		if err != nil {
+			fmt.Println(err)
+			return 2
+		}
+		var doc struct {
+			Vals map[string]int64 `json:"vals"`
+		}
+		json.Unmarshal(b, &doc)
+		fixedVals = doc.Vals
+		if fixedVals == nil {
+			fixedVals = map[string]int64{}
 		}
 	}
 	if *noops != "" {
